@@ -327,8 +327,11 @@ Definition step_checks (cfg : config) (ms : mstate) (o : op) (outs : list out) (
                                       && (known_remote prev lnet src || snap_eqb prev sn)
                            | _ => false end) ]
         else if m_class m =? 2 then
+          (* still outstanding: in the agent's transaction table, unexpired, AND written by the agent in the
+             current generation (ghost log of the requests observed on the wire since the last Restart) *)
           if existsb (fun q => (qs_tx q =? m_tx m) && addr_eqb (qs_dst q) src && (qs_net q =? lnet) && unexpired cfg q)
                      (sn_pending prev)
+             && existsb (fun r => (sr_tx r =? m_tx m) && addr_eqb (sr_dst r) src) (ms_sent ms)
           then []
           else [ ck "C02.response_needs_live_matching_tx"
                     (match outs with [] => snap_same_selection prev sn
